@@ -60,7 +60,7 @@ def case_fn(c):
                 fails = fl
                 break
     elif kind == "expr_eval":
-        fails = oracle.check_expr_eval(c["tree"], c["values"], style=c.get("style", 0))
+        fails = oracle.check_expr_eval(c["tree"], c["values"], style=c.get("style", 0), backend=c.get("backend", "default"))
     elif kind == "outputs":
         fails = oracle.check_outputs(c["model"], c["request"], c["form"], c["vec"], pre_runs=tuple(c.get("pre_runs", ())))
     else:
